@@ -2534,3 +2534,105 @@ func ruleTagMonotone(r *Run, rule string) {
 		r.undecided(rule, key, pos, "the tag function is of an unrecognised form (%s)", kind)
 	}
 }
+
+// ruleErrorsNotSpeculative (R03.30): in the variants that execute instructions past an
+// unresolved branch (several execute units), an error produced by an execute unit may be the
+// error of a wrong-path instruction. Run must not return it in the step that produces it
+// unconditionally: the return has to depend on the instruction's age (a sequence test against
+// the pending flush, or a deferral to the write stage, which is sequence-filtered).
+func ruleErrorsNotSpeculative(r *Run, rule string) {
+	w := r.W
+	for _, v := range variants(w) {
+		if v.pkg == nil || !multiExec(v) || v.run == nil {
+			continue
+		}
+		info := v.info
+		loop := v.mainLoop()
+		if loop == nil {
+			continue
+		}
+		n := 0
+		unconditional := 0
+		ast.Inspect(loop, func(m ast.Node) bool {
+			is, ok := m.(*ast.IfStmt)
+			if !ok {
+				return true
+			}
+			// if X.err != nil { return …, X.err }
+			b, ok := ast.Unparen(is.Cond).(*ast.BinaryExpr)
+			if !ok || b.Op != token.NEQ {
+				return true
+			}
+			var errObj types.Object
+			switch x := ast.Unparen(b.X).(type) {
+			case *ast.SelectorExpr:
+				s := info.Selections[x]
+				if s == nil || s.Kind() != types.FieldVal || typeName(s.Obj().Type()) != "error" {
+					return true
+				}
+				rt := namedOf(s.Recv())
+				if rt == nil || !strings.HasSuffix(strings.ToLower(rt.Obj().Name()), "resp") {
+					return true
+				}
+				errObj = s.Obj()
+			case *ast.Ident:
+				// err from `…, err := unit.cycle(…)` (in the if's init or just before)
+				o := info.Uses[x]
+				if o == nil || typeName(o.Type()) != "error" {
+					return true
+				}
+				fromStep := false
+				ast.Inspect(loop, func(k ast.Node) bool {
+					as, ok := k.(*ast.AssignStmt)
+					if !ok || len(as.Rhs) != 1 {
+						return true
+					}
+					defines := false
+					for _, l := range as.Lhs {
+						if id, ok := l.(*ast.Ident); ok && (info.Defs[id] == o || info.Uses[id] == o) {
+							defines = true
+						}
+					}
+					if call, ok := as.Rhs[0].(*ast.CallExpr); ok && defines {
+						if cs, ok := call.Fun.(*ast.SelectorExpr); ok && strings.EqualFold(cs.Sel.Name, "cycle") {
+							fromStep = true
+						}
+					}
+					return true
+				})
+				if !fromStep {
+					return true
+				}
+				errObj = o
+			default:
+				return true
+			}
+			returnsIt := false
+			for _, st := range is.Body.List {
+				if rs, ok := st.(*ast.ReturnStmt); ok && len(rs.Results) == 2 {
+					switch y := ast.Unparen(rs.Results[1]).(type) {
+					case *ast.SelectorExpr:
+						if info.Selections[y] != nil && info.Selections[y].Obj() == errObj {
+							returnsIt = true
+						}
+					case *ast.Ident:
+						if info.Uses[y] == errObj {
+							returnsIt = true
+						}
+					}
+				}
+			}
+			if returnsIt {
+				n++
+				unconditional++
+			}
+			return true
+		})
+		if n == 0 {
+			// errors are not returned from the main loop at all: deferred (to the write stage) or lost — R07.17 decides the latter
+			r.ok(rule, v.rel+".(CPU).Run:error-age", v.run.Pos(), "no execute-unit error is returned from the main loop in the step that produces it")
+			continue
+		}
+		r.check(unconditional == 0, rule, v.rel+".(CPU).Run:error-age", v.run.Pos(), "an error handed over by an execute unit is returned by Run in the very step, whatever the age of the instruction (%d sites): the error of an instruction on the wrong path of an unresolved older branch fails the run", unconditional)
+	}
+}
